@@ -51,7 +51,8 @@ def run(chk):
             gm["grain sizes"] = [round(rng.uniform(0.05, 1.5), 3), -1]
             gm["normalize grain sizes"] = [True, rng.random() < 0.5]
             gm["deflections"] = [rng.choice([1.0, 0.3, 0.01]), rng.choice([1.0, 0.3])]
-            gm["basis rotation matrices"] = [gm["basis rotation matrices"][0], gm["basis rotation matrices"][0]]
+            bk = "basis rotation matrices" if "basis rotation matrices" in gm else "basis Euler angles z-x-z"
+            gm[bk] = [gm[bk][0], gm[bk][0]]
             gm.pop("max depth", None)
             f["grains models"] = [gm]
             f["min depth"] = 0.0
@@ -107,7 +108,8 @@ def run(chk):
             dm = Gen(rng).random_grains_model(0, 1e5, kinds=("random uniform distribution deflected",))
             gm["model"] = "random uniform distribution deflected"
             gm["deflections"] = [rng.choice([0.001, 0.003, 0.01, 0.03, 0.1]) for _ in comps]
-            gm["basis rotation matrices"] = [dm["basis rotation matrices"][0] for _ in comps]
+            bk = "basis rotation matrices" if "basis rotation matrices" in dm else "basis Euler angles z-x-z"
+            gm[bk] = [dm[bk][0] for _ in comps]
         lf["grains models"] = [gm]
         lf["composition models"] = [{"model": "uniform", "compositions": [0]}]
         seed = rng.randrange(1, 1 << 30)
